@@ -873,6 +873,7 @@ func runC07(c *Ctx) {
 		}
 		c.c07FieldSymmetry(unc)
 	}
+	c.c07LayoutByContent(decidedNames)
 	// ---- helper rules
 	c.c07Helpers()
 	c.c07NarrowArith()
@@ -1725,4 +1726,160 @@ func (c *Ctx) c07FieldSymmetry(names []string) {
 		R.Add("S.field-symmetry", name, c.P.RelPos(t0.enc.Pos()), st, d)
 	}
 	R.Notes["field_symmetry_types"] = n
+}
+
+// c07LayoutByContent: the layout comparison pairs the encoder's output with the parser's successful paths by the
+// lengths involved; it does not ask under which *content* a path is taken. That is sound only while no parser of a
+// two-way type chooses between two ways to succeed by comparing a body byte with a constant: the encoder writes any
+// field value at that position, and for the values on the other side of the comparison the body is read with the
+// other layout (a plate colour above 9 turning a 2013 registration into a 2011 one).
+func (c *Ctx) c07LayoutByContent(decided []string) {
+	R := c.R
+	rule := "S.layout-by-length"
+	R.Rules[rule] = "no parser of a two-way type branches on the comparison of a body byte with a constant when both outcomes can return success: which layout a body is read with depends on the header's version, on lengths and on length / count fields only (premise of pairing encoder and parser paths by length)"
+	n := 0
+	isDecided := map[string]bool{}
+	for _, d := range decided {
+		if k := strings.Index(d, " "); k > 0 {
+			d = d[:k]
+		}
+		isDecided[d] = true
+	}
+	for _, t0 := range c.c07Types() {
+		// only where the layout comparison claims the round trip (content dispatch is the business of TLV decoders)
+		if t0.parse == nil || t0.enc == nil || !isDecided[t0.name] {
+			continue
+		}
+		n++
+		var bad []string
+		// the types that take part in both directions: receivers of the encoder's family (a decoder-only part of the
+		// message - the additional-information TLVs of a location report - dispatches on content by design)
+		recvName := func(f *ssa.Function) string {
+			if f.Signature.Recv() == nil {
+				return ""
+			}
+			n, _ := derefNamed(f.Signature.Recv().Type())
+			return n
+		}
+		twoWay := map[string]bool{"": true, t0.name: true}
+		for _, ef := range c.familyOf(t0.enc) {
+			twoWay[recvName(ef)] = true
+		}
+		for _, fn := range c.familyOf(t0.parse) {
+			if !twoWay[recvName(fn)] {
+				continue
+			}
+			var fromBody func(v ssa.Value, d int) bool
+			fromBody = func(v ssa.Value, d int) bool {
+				if d > 8 {
+					return false
+				}
+				switch x := v.(type) {
+				case *ssa.Slice:
+					return fromBody(x.X, d+1)
+				case *ssa.Phi:
+					for _, e := range x.Edges {
+						if fromBody(e, d+1) {
+							return true
+						}
+					}
+				case *ssa.UnOp:
+					if x.Op == token.MUL {
+						if fa, ok := x.X.(*ssa.FieldAddr); ok {
+							_, name, _ := fieldNameOfAddr(fa)
+							return name == "Body"
+						}
+					}
+				case *ssa.Parameter:
+					sl, ok := x.Type().Underlying().(*types.Slice)
+					return ok && types.Identical(sl.Elem(), types.Typ[types.Byte]) && fn != t0.parse
+				}
+				return false
+			}
+			isBodyByte := func(v ssa.Value) bool {
+				for d := 0; d < 4; d++ {
+					switch x := v.(type) {
+					case *ssa.Convert:
+						v = x.X
+						continue
+					case *ssa.ChangeType:
+						v = x.X
+						continue
+					case *ssa.UnOp:
+						if ia, ok := x.X.(*ssa.IndexAddr); ok && x.Op == token.MUL {
+							return fromBody(ia.X, 0)
+						}
+					}
+					break
+				}
+				return false
+			}
+			succeeds := func(from *ssa.BasicBlock) bool {
+				seen := map[*ssa.BasicBlock]bool{from: true}
+				work := []*ssa.BasicBlock{from}
+				for len(work) > 0 {
+					b := work[len(work)-1]
+					work = work[:len(work)-1]
+					if ret, ok := b.Instrs[len(b.Instrs)-1].(*ssa.Return); ok {
+						if len(ret.Results) == 0 {
+							return true
+						}
+						last := ret.Results[len(ret.Results)-1]
+						if cv, isC := last.(*ssa.Const); isC && cv.Value == nil {
+							return true
+						}
+						if _, isC := last.(*ssa.Const); !isC {
+							if _, isErr := last.Type().Underlying().(*types.Interface); !isErr {
+								return true
+							}
+							// an error value that is not the nil constant: may be nil through a φ
+							if phi, isPhi := last.(*ssa.Phi); isPhi {
+								for _, e := range phi.Edges {
+									if cv, isC := e.(*ssa.Const); isC && cv.Value == nil {
+										return true
+									}
+								}
+							}
+						}
+					}
+					for _, sb := range b.Succs {
+						if !seen[sb] {
+							seen[sb] = true
+							work = append(work, sb)
+						}
+					}
+				}
+				return false
+			}
+			for _, b := range fn.Blocks {
+				iff, ok := b.Instrs[len(b.Instrs)-1].(*ssa.If)
+				if !ok {
+					continue
+				}
+				bo, ok := iff.Cond.(*ssa.BinOp)
+				if !ok {
+					continue
+				}
+				switch bo.Op {
+				case token.LSS, token.LEQ, token.GTR, token.GEQ, token.EQL, token.NEQ:
+				default:
+					continue
+				}
+				_, cx := bo.X.(*ssa.Const)
+				_, cy := bo.Y.(*ssa.Const)
+				if !(cx && isBodyByte(bo.Y)) && !(cy && isBodyByte(bo.X)) {
+					continue
+				}
+				if succeeds(b.Succs[0]) && succeeds(b.Succs[1]) {
+					bad = append(bad, c.P.RelPos(bo.Pos()))
+				}
+			}
+		}
+		st, d := report.Discharged, ""
+		if len(bad) > 0 {
+			st, d = report.Violated, fmt.Sprintf("%s.Parse compares a body byte with a constant at %v and can succeed either way: the body is read with a layout chosen by a field value the encoder writes freely, so Parse(Encode(v)) differs from v for the values on the other side", t0.name, bad)
+		}
+		R.Add(rule, t0.name, c.P.RelPos(t0.parse.Pos()), st, d)
+	}
+	R.Require(rule, 20, "")
 }
